@@ -216,6 +216,11 @@ inductive Val
   | str (s : Bytes)        -- string / []byte
   | rich (xml : Bytes)     -- []RichTextRun accepted by setRichText; xml = marshalled runs ([] when there are none)
   | richErr                -- []RichTextRun rejected by setRichText (too long)
+  /-- `time.Time`: `isNum` = the serial number is positive (`timeToExcelTime`, C19's model), `text` = its
+  `FormatFloat` text, or the RFC 3339 text when it is not; `nf` = the id `NewStyle(&Style{NumFmt: 22})` returns on
+  this workbook (fresh or existing — the style registry is C17's), `nfMem` = the id of the default date style the
+  in-memory `SetCellValue` picks for this value (`getTimeNumFmt`: 14, 17 or 22) -/
+  | time (isNum : Bool) (text : Bytes) (nf nfMem : Int)
   deriving DecidableEq, Repr
 
 /-- one element of the `values` slice -/
@@ -272,6 +277,12 @@ def setCellVal (x : Ext) (c : XC) : Val → Except E XC
       .ok { c with t := lit "inlineStr", v := [], is := .text cut (needSpace cut) }
   | .rich xml => .ok { c with t := lit "inlineStr", is := .runs xml }
   | .richErr => .error .richText
+  | .time isNum text nf _ =>
+    -- `setCellTime`: `setCellDefault` of the serial number, default date-time format when the cell has no style;
+    -- a time that is not a positive serial is stored as its RFC 3339 text (inline string, written raw: the text has
+    -- no character that escaping or bstrMarshal would change)
+    if isNum then .ok { c with t := [], v := text, s := if c.s = 0 then nf else c.s }
+    else .ok { c with t := lit "inlineStr", v := [], is := .text text (needSpace text) }
 
 def spaceAttr (b : Bool) : Bytes := if b then lit " xml:space=\"preserve\"" else []
 
@@ -613,6 +624,12 @@ def valObs : Val → Kind × Bytes
   | .str s => (.text, cutCell s)
   | .rich xml => (.text, xml)
   | .richErr => (.blank, [])
+  | .time isNum text _ _ => (if isNum then .number else .text, text)
+
+/-- the default date style `SetCellValue` adds to a time stored as a number when the cell has no style of its own -/
+def valStyle : Val → Int → Int
+  | .time true _ _ nfMem, s => if s = 0 then nfMem else s
+  | _, s => s
 
 /-- the cell the in-memory calls leave at a position: `SetCellValue`, then
 `SetCellFormula` when a formula is given, then `SetCellStyle` when a style is
@@ -623,11 +640,11 @@ def cellObs (cs : ColStyles) (rowStyle : Int) (col : Int) : Item → Option Obs
   | .plain .nil => none
   | .plain v =>
     some { kind := (valObs v).1, value := (valObs v).2, formula := [],
-           style := if rowStyle ≠ 0 then rowStyle else colStyleAt cs col }
+           style := valStyle v (if rowStyle ≠ 0 then rowStyle else colStyleAt cs col) }
   | .cell style formula v =>
     some { kind := if formula ≠ [] then .formula else (valObs v).1,
            value := (valObs v).2, formula := formula,
-           style := if style > 0 then style else if rowStyle ≠ 0 then rowStyle else colStyleAt cs col }
+           style := valStyle v (if style > 0 then style else if rowStyle ≠ 0 then rowStyle else colStyleAt cs col) }
 
 /-- a row handed to either API -/
 structure RowIn where
